@@ -453,6 +453,7 @@ static void c07_plan(Rng &rng, Plan &p, uint64_t variant) {
     wellformed_cfg(rng, p.cfg);
     p.cfg.set("res_decomp", 1);
     p.cfg.set("clock_step", 1);   // well-behaved clock: the verdict must not depend on machine load (seam S7)
+    if (rng.chance(1, 3)) { static const long GB[] = {16, 61, 256, 1024, 8191}; p.cfg.set("gzip_buf", GB[rng.below(5)]); }   // tuning knob (guarded hook): small output buffers
     int pk; Bytes payload = c07_payload(rng, pk);
     int cod = (int) ((variant + rng.below(C07_NCOD)) % C07_NCOD);
     std::string cname = C07_CODINGS[cod];
@@ -530,6 +531,7 @@ static void c07_layers_plan(Rng &rng, Plan &p) {
     p.prop = "C07"; p.scenario = "layers";
     wellformed_cfg(rng, p.cfg);
     p.cfg.set("res_decomp", 1); p.cfg.set("clock_step", 1);
+    if (rng.chance(1, 4)) { static const long GB[] = {256, 1024, 8191}; p.cfg.set("gzip_buf", GB[rng.below(3)]); }
     static const long L[] = {0, 1, 2, 3, 5}; long lim = L[rng.below(5)];
     static const long LZ[] = {0, 1, 1, 2, 3}; long lzlim = LZ[rng.below(5)];
     p.cfg.set("decomp_layers", lim); p.cfg.set("lzma_layers", lzlim);
